@@ -269,7 +269,7 @@ class Integer(base.SimpleAsn1Type):
             return str(self.namedValues[value])
 
         except KeyError:
-            return str(value)
+            return integer.toText(value)
 
     # backward compatibility
 
